@@ -7,7 +7,8 @@ Helper lemmas for C05 at scheduler level (id C05S) over the `Sched3Q` model (sch
 * `Keep g L` = "no two proxies share (point, name)" ∧ "the queue manager still has the configured queues and every
   deque entry is a member of its queue" ∧ "the launch log is `L`": one lemma per primitive of the model, so that these
   facts are carried through every op (pattern of `SchedLemmasC19`);
-* the release step of the main loop against the limits, and the run-level invariants.
+* the release step of the main loop against the limits, the run-level invariants, the limit invariant along runs
+  without out-of-band activation, and the queue order relation (`QStep`) over every operation.
 -/
 import CylcModel.Sched3Q
 
@@ -334,20 +335,68 @@ def QI (g : Graph) (qs : List LQ) : Prop :=
   qs.map LQ.sig = g.queues.map QDef.sig ∧
   ∀ q ∈ qs, ∀ k ∈ q.deque, q.members.contains k.2 = true
 
+/-- `d'` is `d` after some tasks left the queue and others joined at the end: the tasks that stayed keep their
+relative order, and every newcomer is behind them -/
+def Tail (d d' : List Key) : Prop := ∃ sub app, d' = sub ++ app ∧ sub.Sublist d
+
+theorem Tail.refl (d : List Key) : Tail d d := ⟨d, [], by simp, List.Sublist.refl d⟩
+
+theorem Tail.of_sublist {d d' d'' : List Key} (h : Tail d d') (hs : d''.Sublist d') : Tail d d'' := by
+  obtain ⟨sub, app, rfl, hsub⟩ := h
+  obtain ⟨l1, l2, rfl, h1, _⟩ := List.sublist_append_iff.mp hs
+  exact ⟨l1, l2, rfl, h1.trans hsub⟩
+
+theorem Tail.append {d d' : List Key} (h : Tail d d') (l : List Key) : Tail d (d' ++ l) := by
+  obtain ⟨sub, app, rfl, hsub⟩ := h
+  exact ⟨sub, app ++ l, by simp, hsub⟩
+
+theorem Tail.trans {a b c : List Key} (h1 : Tail a b) (h2 : Tail b c) : Tail a c := by
+  obtain ⟨sub, app, rfl, hsub⟩ := h2
+  have := h1.of_sublist hsub
+  exact this.append app
+
+/-- queue by queue: same queue (name, limit, members), deque related by `Tail` -/
+inductive QStep : List LQ → List LQ → Prop
+  | nil : QStep [] []
+  | cons {q q' : LQ} {rest rest' : List LQ} : q'.sig = q.sig → Tail q.deque q'.deque → QStep rest rest' →
+      QStep (q :: rest) (q' :: rest')
+
+theorem QStep.refl : ∀ (qs : List LQ), QStep qs qs
+  | [] => QStep.nil
+  | _ :: rest => QStep.cons rfl (Tail.refl _) (QStep.refl rest)
+
+theorem QStep.trans : ∀ {a b c : List LQ}, QStep a b → QStep b c → QStep a c := by
+  intro a b c h1
+  induction h1 generalizing c with
+  | nil => intro h2; cases h2; exact QStep.nil
+  | cons hs ht _ ih =>
+    intro h2
+    cases h2 with
+    | cons hs' ht' h2' => exact QStep.cons (hs'.trans hs) (ht.trans ht') (ih h2')
+
+/-- a queue-wise change of the deques only -/
+theorem qstep_map (f : LQ → LQ) (hf : ∀ q, (f q).sig = q.sig ∧ Tail q.deque (f q).deque) :
+    ∀ qs : List LQ, QStep qs (qs.map f)
+  | [] => QStep.nil
+  | q :: rest => QStep.cons (hf q).1 (hf q).2 (qstep_map f hf rest)
+
 /-- the part of the state the queue lemmas follow through every primitive: queue manager and launch log -/
 def sp (s : State) : List LQ × List (Int × String × Nat) := (s.qs, s.launched)
 
-def QL (c : Graph × List (Int × String × Nat)) (v : List LQ × List (Int × String × Nat)) : Prop :=
-  QI c.1 v.1 ∧ v.2 = c.2
+/-- `c` = (graph, launch log, a reference queue manager the current one descends from) -/
+def QL (c : Graph × List (Int × String × Nat) × List LQ) (v : List LQ × List (Int × String × Nat)) : Prop :=
+  QI c.1 v.1 ∧ v.2 = c.2.1 ∧ QStep c.2.2 v.1
 
-def Keep (c : Graph × List (Int × String × Nat)) (s : State) : Prop := NoDup s ∧ QL c (sp s)
+def Keep (c : Graph × List (Int × String × Nat) × List LQ) (s : State) : Prop := NoDup s ∧ QL c (sp s)
 
-/-- `Keep` without the launch log -/
+/-- `Keep` without the launch log and the reference queues -/
 def KeepQ (g : Graph) (s : State) : Prop := NoDup s ∧ QI g s.qs
 
 theorem keepQ_of_keep {c} {s : State} (h : Keep c s) : KeepQ c.1 s := ⟨h.1, h.2.1⟩
-theorem keep_of_keepQ {g} {s : State} (h : KeepQ g s) : Keep (g, s.launched) s := ⟨h.1, h.2, rfl⟩
-theorem keep_launched {c} {s : State} (h : Keep c s) : s.launched = c.2 := h.2.2
+theorem keep_of_keepQ {g} {s : State} (h : KeepQ g s) : Keep (g, s.launched, s.qs) s :=
+  ⟨h.1, h.2, rfl, QStep.refl _⟩
+theorem keep_launched {c} {s : State} (h : Keep c s) : s.launched = c.2.1 := h.2.2.1
+theorem keep_qstep {c} {s : State} (h : Keep c s) : QStep c.2.2 s.qs := h.2.2.2
 
 theorem keys_put (s : State) (x : Proxy) : keys (s.put x) = keys s := by
   unfold keys State.put
@@ -447,8 +496,16 @@ theorem qi_push {g : Graph} {qs : List LQ} (x : Proxy) (h : QI g qs) :
       rw [if_neg hc]
       exact h2 q hq k hk
 
+theorem qstep_push (qs : List LQ) (x : Proxy) :
+    QStep qs (qs.map fun q => if q.members.contains x.name then { q with deque := q.deque ++ [(x.pt, x.name)] } else q) := by
+  apply qstep_map
+  intro q
+  split
+  · exact ⟨rfl, (Tail.refl _).append _⟩
+  · exact ⟨rfl, Tail.refl _⟩
+
 theorem keep_push {c} (s : State) (x : Proxy) (h : Keep c s) : Keep c (s.push x) :=
-  ⟨h.1, qi_push x h.2.1, h.2.2⟩
+  ⟨h.1, qi_push x h.2.1, h.2.2.1, h.2.2.2.trans (qstep_push s.qs x)⟩
 
 theorem eraseLast_subset (k : Int × String) (d : List (Int × String)) : ∀ a ∈ eraseLast k d, a ∈ d := by
   intro a ha
@@ -481,10 +538,24 @@ theorem qi_removeFromQueues (k : Int × String) : ∀ {qs : List LQ} {sigs : Lis
       · exact h2 q' (List.mem_cons_self) a ha
       · exact this.2 q' hq' a ha
 
+theorem eraseLast_sublist (k : Key) (d : List Key) : (eraseLast k d).Sublist d := by
+  unfold eraseLast
+  have : (d.reverse.erase k).Sublist d.reverse := List.erase_sublist
+  have := this.reverse
+  simpa using this
+
+theorem qstep_removeFromQueues (k : Key) : ∀ qs : List LQ, QStep qs (removeFromQueues k qs)
+  | [] => QStep.nil
+  | q :: rest => by
+    unfold removeFromQueues
+    split
+    · exact QStep.cons rfl ((Tail.refl _).of_sublist (eraseLast_sublist k _)) (QStep.refl rest)
+    · exact QStep.cons rfl (Tail.refl _) (qstep_removeFromQueues k rest)
+
 theorem keep_unqueue {c} (s : State) (x : Proxy) (h : Keep c s) : Keep c (s.unqueue x) := by
-  obtain ⟨hn, ⟨h1, h2⟩, hl⟩ := h
+  obtain ⟨hn, ⟨h1, h2⟩, hl, hq⟩ := h
   have := qi_removeFromQueues (x.pt, x.name) h1 h2
-  exact ⟨hn, ⟨this.1, this.2⟩, hl⟩
+  exact ⟨hn, ⟨this.1, this.2⟩, hl, hq.trans (qstep_removeFromQueues _ _)⟩
 
 /-! ### `Keep c` is preserved by every primitive that touches neither the queues nor the launch log -/
 
@@ -587,13 +658,35 @@ theorem qi_fresh (g : Graph) :
   obtain ⟨q0, _, rfl⟩ := List.mem_map.mp hq
   simp at hk
 
+/-- the queue manager as built at start-up / restart: the configured queues, all deques empty -/
+def freshQs (g : Graph) : List LQ :=
+  g.queues.map fun q => ({ name := q.name, limit := q.limit, members := q.members } : LQ)
+
+/-- rebuilding the queue manager empties every deque -/
+theorem qstep_fresh : ∀ {qs0 : List LQ} {l : List QDef}, qs0.map LQ.sig = l.map QDef.sig →
+    QStep qs0 (l.map fun q => ({ name := q.name, limit := q.limit, members := q.members } : LQ)) := by
+  intro qs0
+  induction qs0 with
+  | nil =>
+    intro l h
+    cases l with
+    | nil => exact QStep.nil
+    | cons a l => simp at h
+  | cons q0 rest ih =>
+    intro l h
+    cases l with
+    | nil => simp at h
+    | cons a l =>
+      simp only [List.map_cons, List.cons.injEq] at h
+      exact QStep.cons h.1.symm ⟨[], [], rfl, List.nil_sublist _⟩ (ih h.2)
+
 theorem nodup_empty (g : Graph) (sp0 : Option Int) :
-    Keep (g, []) ({ stopPoint := sp0, qs := g.queues.map fun q =>
+    Keep (g, [], freshQs g) ({ stopPoint := sp0, qs := g.queues.map fun q =>
       { name := q.name, limit := q.limit, members := q.members } } : State) := by
-  refine ⟨?_, qi_fresh g, rfl⟩
+  refine ⟨?_, qi_fresh g, rfl, QStep.refl _⟩
   unfold NoDup keys; simp
 
-theorem keep_loadFromPoint (g : Graph) : Keep (g, []) (loadFromPoint g) := by
+theorem keep_loadFromPoint (g : Graph) : Keep (g, [], freshQs g) (loadFromPoint g) := by
   unfold loadFromPoint
   simp only
   apply foldl_inv (Keep _)
@@ -1515,25 +1608,26 @@ theorem restart_eq (g : Graph) (s : State) :
   unfold restart restartBase restoreProxy
   rfl
 
-theorem keep_restartBase (g : Graph) (s : State) (h : NoDup s) : Keep (g, []) (restartBase g s) := by
-  refine ⟨?_, qi_fresh g, rfl⟩
+theorem keep_restartBase (g : Graph) (s : State) (h : KeepQ g s) : Keep (g, [], s.qs) (restartBase g s) := by
+  refine ⟨?_, qi_fresh g, rfl, qstep_fresh h.2.1⟩
+  have := h.1
   unfold NoDup keys restartBase at *
   simp only [List.map_map]
-  exact h
+  exact this
 
-theorem keep_restart (g : Graph) (s : State) (h : NoDup s) : Keep (g, []) (restart g s) := by
+theorem keep_restart (g : Graph) (s : State) (h : KeepQ g s) : Keep (g, [], s.qs) (restart g s) := by
   rw [restart_eq]
   split
   · exact keep_setHoldPoint _ _ (keep_restartBase g s h)
   · exact keep_restartBase g s h
 
-theorem keep_clearOp {c} (s : State) (h : Keep c s) : Keep (c.1, []) (clearOp s) :=
-  ⟨h.1, h.2.1, rfl⟩
+theorem keep_clearOp {c} (s : State) (h : Keep c s) : Keep (c.1, [], c.2.2) (clearOp s) :=
+  ⟨h.1, h.2.1, rfl, h.2.2.2⟩
 
 /-- the pool / queue invariants are kept by every operation -/
 theorem keepQ_step {g : Graph} (s : State) (op : Op) (h : KeepQ g s) :
     KeepQ g (step g s op) := by
-  have h0 : Keep (g, []) (clearOp s) := keep_clearOp s (keep_of_keepQ h)
+  have h0 : Keep (g, [], s.qs) (clearOp s) := keep_clearOp s (keep_of_keepQ h)
   unfold step
   cases op with
   | loop => exact keepQ_mainLoop _ (keepQ_of_keep h0)
@@ -1548,7 +1642,7 @@ theorem keepQ_step {g : Graph} (s : State) (op : Op) (h : KeepQ g s) :
   | stopTask p n => exact keepQ_of_keep (keep_of_eq (s := clearOp s) rfl rfl h0)
   | pause => exact keepQ_of_keep (keep_of_eq (s := clearOp s) rfl rfl h0)
   | resume => exact keepQ_of_keep (keep_of_eq (s := clearOp s) rfl rfl h0)
-  | restart => exact keepQ_of_keep (keep_restart g _ h0.1)
+  | restart => exact keepQ_of_keep (keep_restart g _ (keepQ_of_keep h0))
 
 theorem keepQ_init (g : Graph) : KeepQ g (init g) := keepQ_of_keep (keep_loadFromPoint g)
 
@@ -1775,7 +1869,7 @@ theorem prerel_add {s : State} {y : Proxy} (hw : y.wjp = false) (hs : s.hist = [
   · unfold State.add; split <;> rfl
 
 /-- `Keep` together with `PreRel` from a fixed earlier state -/
-def PK (c : Graph × List (Int × String × Nat)) (s0 st : State) : Prop := Keep c st ∧ PreRel s0 st
+def PK (c : Graph × List (Int × String × Nat) × List LQ) (s0 st : State) : Prop := Keep c st ∧ PreRel s0 st
 
 theorem pk_of_eq {c} {s0 st t : State} (hp : t.pool = st.pool) (hs : sp t = sp st) (hh : t.hist = st.hist)
     (h : PK c s0 st) : PK c s0 t :=
@@ -1922,11 +2016,11 @@ theorem pk_releaseRunaheadN {c} {s0 : State} (g : Graph) : ∀ (n : Nat) (st : S
 def emptyState (g : Graph) : State :=
   { stopPoint := g.stopPoint, qs := g.queues.map fun q => { name := q.name, limit := q.limit, members := q.members } }
 
-theorem pk_loadFromPoint (g : Graph) : PK (g, []) (emptyState g) (loadFromPoint g) := by
+theorem pk_loadFromPoint (g : Graph) : PK (g, [], freshQs g) (emptyState g) (loadFromPoint g) := by
   unfold loadFromPoint
   simp only
-  have h0 : PK (g, []) (emptyState g) (emptyState g) := ⟨nodup_empty g _, PreRel.refl _⟩
-  have h1 : PK (g, []) (emptyState g) (g.tasks.foldl (fun st t =>
+  have h0 : PK (g, [], freshQs g) (emptyState g) (emptyState g) := ⟨nodup_empty g _, PreRel.refl _⟩
+  have h1 : PK (g, [], freshQs g) (emptyState g) (g.tasks.foldl (fun st t =>
       match t.firstParentless with
       | some p => spawnAndAdd g st t.name p
       | none => st) (emptyState g)) := by
@@ -2007,7 +2101,7 @@ theorem limit_step {g : Graph} (hi : IndepSig (g.queues.map QDef.sig)) {s : Stat
     (hno : NoOobStep s (step g s op)) (hl : LimitOK g s) : LimitOK g (step g s op) := by
   intro q hq hlim
   have hk' := keepQ_step s op hk
-  have h0 : Keep (g, []) (clearOp s) := keep_clearOp s (keep_of_keepQ hk)
+  have h0 : Keep (g, [], s.qs) (clearOp s) := keep_clearOp s (keep_of_keepQ hk)
   by_cases hop : op = .loop
   · subst hop
     have hstep : step g s .loop = mainLoop g (clearOp s) := rfl
@@ -2119,7 +2213,7 @@ theorem limit_step {g : Graph} (hi : IndepSig (g.queues.map QDef.sig)) {s : Stat
       | stopTask p n => rfl
       | pause => rfl
       | resume => rfl
-      | restart => exact keep_launched (keep_restart g _ h0.1)
+      | restart => exact keep_launched (keep_restart g _ (keepQ_of_keep h0))
     exact Nat.le_trans (act_le_of_no_launch q.members hk'.1 hlaunched hno) (hl q hq hlim)
 
 /-- no out-of-band activation along a whole op list, starting from `s` -/
@@ -2200,5 +2294,103 @@ theorem noOobFrom_of_B (g : Graph) : ∀ (ops : List Op) (s : State), noOobFromB
     unfold noOobFromB at h
     simp only [Bool.and_eq_true] at h
     exact ⟨noOobStep_of_B h.1, ih _ h.2⟩
+
+/-! ### Queue order along runs: who stays keeps his place, who joins lines up at the end -/
+
+theorem qstep_releaseQueues (isHeld : Key → Bool) : ∀ (qs : List LQ) (active : List String),
+    QStep qs (releaseQueues isHeld qs active).1 := by
+  intro qs
+  induction qs with
+  | nil => intro active; exact QStep.nil
+  | cons q rest ih =>
+    intro active
+    unfold releaseQueues
+    simp only
+    refine QStep.cons rfl ?_ (ih _)
+    apply (Tail.refl _).of_sublist
+    obtain ⟨_, h2, h3⟩ := releaseLoop_spec q.limit isHeld q.deque (nActive active q.members)
+    rw [h2, h3]
+    have : ((q.deque.take (popCount q.limit isHeld q.deque (nActive active q.members))).filter isHeld ++
+        q.deque.drop (popCount q.limit isHeld q.deque (nActive active q.members))).Sublist
+        (q.deque.take (popCount q.limit isHeld q.deque (nActive active q.members)) ++
+          q.deque.drop (popCount q.limit isHeld q.deque (nActive active q.members))) :=
+      List.Sublist.append List.filter_sublist (List.Sublist.refl _)
+    rw [List.take_append_drop] at this
+    exact this
+
+theorem qs_releaseQueued (s : State) :
+    (releaseQueued s).1.qs = (releaseQueues s.isHeldKey s.qs (countActive s)).1 := by
+  rw [releaseQueued_eq]
+  exact congrArg Prod.fst (markFold_frame _ _).2
+
+theorem qs_prepFold : ∀ (l : List Key) (st : State), (l.foldl prepSubmit st).qs = st.qs := by
+  intro l
+  induction l with
+  | nil => intro st; rfl
+  | cons k l ih => intro st; simp only [List.foldl_cons]; rw [ih]; exact (prepSubmit_frame st k).2
+
+theorem qstep_releaseAndSubmit (s : State) : QStep s.qs (releaseAndSubmit s).qs := by
+  have h1 : QStep s.qs (releaseQueued s).1.qs := by rw [qs_releaseQueued]; exact qstep_releaseQueues _ _ _
+  rw [releaseAndSubmit_eq]
+  split
+  · exact h1
+  · show QStep s.qs (List.foldl prepSubmit (releaseQueued s).1 (todoOf s)).qs
+    rw [qs_prepFold]; exact h1
+
+theorem qstep_mainLoop {g : Graph} (s : State) (h : KeepQ g s) : QStep s.qs (mainLoop g s).qs := by
+  rw [mainLoop_eq]
+  split
+  · exact QStep.refl _
+  · have h3 := keep_preLoop g s (keep_of_keepQ h)
+    split
+    · exact keep_qstep (keep_of_eq (s := preLoop g s) rfl rfl h3)
+    · have h4 := keep_sweepQueue _ h3
+      have h5 : Keep (g, (relStep (sweepQueue (preLoop g s))).launched, s.qs) (relStep (sweepQueue (preLoop g s))) := by
+        unfold relStep
+        split
+        · have hk := keepQ_releaseAndSubmit (keepQ_of_keep h4)
+          exact ⟨hk.1, hk.2, rfl, (keep_qstep h4).trans (qstep_releaseAndSubmit _)⟩
+        · exact ⟨h4.1, h4.2.1, rfl, h4.2.2.2⟩
+      exact keep_qstep (keep_finishLoop g _ (keep_processQueue g _ h5))
+
+/-- **queue order over one operation**: every queue keeps its name, limit and members; the tasks that are still
+queued afterwards are in the order they had before, and every task queued by the operation is behind them -/
+theorem qstep_step {g : Graph} (s : State) (op : Op) (h : KeepQ g s) : QStep s.qs (step g s op).qs := by
+  have h0 : Keep (g, [], s.qs) (clearOp s) := keep_clearOp s (keep_of_keepQ h)
+  unfold step
+  cases op with
+  | loop => exact qstep_mainLoop _ (keepQ_of_keep h0)
+  | subres p n ok sn => exact keep_qstep (keep_processMessage g _ _ _ _ _ _ _ h0)
+  | msg p n sn text => exact QStep.refl _
+  | hold ids => exact keep_qstep (keep_holdTasks _ _ h0)
+  | release ids => exact keep_qstep (keep_releaseTasks _ _ h0)
+  | setHoldPoint p => exact keep_qstep (keep_setHoldPoint _ _ h0)
+  | releaseHoldPoint => exact keep_qstep (keep_releaseHoldPoint _ h0)
+  | stop mode => exact QStep.refl _
+  | stopPoint p => exact keep_qstep (keep_setStopPoint _ _ h0)
+  | stopTask p n => exact QStep.refl _
+  | pause => exact QStep.refl _
+  | resume => exact QStep.refl _
+  | restart => exact keep_qstep (keep_restart g _ (keepQ_of_keep h0))
+
+/-- only a main loop launches jobs -/
+theorem launched_step_of_ne_loop {g : Graph} {s : State} (h : KeepQ g s) (op : Op) (hne : op ≠ .loop) :
+    (step g s op).launched = [] := by
+  have h0 : Keep (g, [], s.qs) (clearOp s) := keep_clearOp s (keep_of_keepQ h)
+  unfold step
+  cases op with
+  | loop => exact absurd rfl hne
+  | subres p n ok sn => exact keep_launched (keep_processMessage g _ _ _ _ _ _ _ h0)
+  | msg p n sn text => rfl
+  | hold ids => exact keep_launched (keep_holdTasks _ _ h0)
+  | release ids => exact keep_launched (keep_releaseTasks _ _ h0)
+  | setHoldPoint p => exact keep_launched (keep_setHoldPoint _ _ h0)
+  | releaseHoldPoint => exact keep_launched (keep_releaseHoldPoint _ h0)
+  | stop mode => rfl
+  | stopPoint p => exact keep_launched (keep_setStopPoint _ _ h0)
+  | stopTask p n => rfl
+  | pause => rfl
+  | resume => rfl
+  | restart => exact keep_launched (keep_restart g _ (keepQ_of_keep h0))
 
 end CylcModel.Sched3Q
